@@ -207,10 +207,7 @@ DOC_TYPE_ATOMS = [
 
 def doc_type(rng, gated: set = frozenset()) -> str:
     k = rng.choice([1, 2, 2, 3, 3, 4])
-    atoms = DOC_TYPE_ATOMS
-    if "doc:default:not-a-safe-ds-literal" in gated:
-        # a set of quoted choices makes its first member the documented default, which is copied verbatim (recorded finding)
-        atoms = [a for a in atoms if not a.startswith("{'")]
+    atoms = DOC_TYPE_ATOMS  # (a set of quoted choices makes its first member the documented default)
     t = rng.choice([" | ", " | ", " or ", ", "]).join(rng.choice(atoms) for _ in range(k))
     r = rng.random()
     if r < 0.1:
